@@ -6,12 +6,23 @@ import json, os, shutil, sys
 ROOT = os.path.dirname(os.path.dirname(os.path.abspath(__file__)))
 md, results = sys.argv[1], sys.argv[2]
 summ = json.load(open(sys.argv[3])) if len(sys.argv) > 3 else {}
+# optional 4th argument: a detection matrix written by tools/checks_on_mutants.sh with a newer harness; its
+# "checks" replace the ones recorded next to the confirmation
+matrix = {}
+if len(sys.argv) > 4 and os.path.exists(sys.argv[4]):
+    for l in open(sys.argv[4]):
+        r = json.loads(l)
+        if r.get("checks"):
+            matrix[r["mutant"]] = r["checks"]
 head = os.popen("git -C /repo rev-parse --short HEAD").read().strip()
 vhead = os.popen(f"git -C {ROOT} rev-parse --short HEAD").read().strip()
 kept = 0
 for line in open(results):
     r = json.loads(line)
     name, prop = r["mutant"], r["property"]
+    if name in matrix:
+        r["checks"] = matrix[name]
+        r["matrix_run"] = True
     ok = r["applies"] and r["suite_passes"] and r["demo_fails_with"] and r["demo_passes_without"]
     if not ok:
         print("NOT KEPT", name, {k: r[k] for k in ("applies", "suite_passes", "demo_fails_with", "demo_passes_without")})
@@ -41,7 +52,8 @@ for line in open(results):
                    + "; demo as tests/demo.rs with and without the change",
         },
         "checks_run": {
-            "how": "all 19 quick checks through a scratch copy of the harness pointed at the patched worktree (tools/confirm_mutants.sh), VERIF_SEED=0",
+            "how": "all 19 quick checks through a scratch copy of the harness pointed at the patched worktree (tools/"
+                   + ("checks_on_mutants.sh" if r.get("matrix_run") else "confirm_mutants.sh") + "), VERIF_SEED=0",
             "harness_commit": vhead,
             "detected_by": {k: v["sig"] for k, v in sorted(detected.items())},
             "inconclusive_exit_2": inconclusive,
